@@ -12,6 +12,21 @@ CHECKS = {
  "C02": dict(technique="runtime monitoring: round-trip monitor (identity oracle) over key pools, boundary/catalogue workloads and seeded random inputs at all three API layers",
    text="As C01 for sign/verify: official vector keys, 64 (thorough 400) derived Ed25519 pairs, 16 (100) P-384 pairs, RSA-2048 fixtures; each token must verify to exactly the signed message.",
    note="key pairs are derived with the curve crates the library also uses (generation only; C08 cross-checks against the independent reference); RSA-2048 only", ref="DESIGN.md section 4 C02"),
+ "C03": dict(technique="runtime monitoring: mutation monitor over authentic tokens (operator/region oracle by construction, tolerated classes) plus a trace rule on the keystream hook (no decryption event during a rejected call) and a validator call log",
+   text="Authentic base tokens of all 8 protocols are altered by exhaustive operators (all single-bit flips, all single-character substitutions, all prefixes, boundary shifts, splices, footer swaps, non-canonical base64, signature re-encodings) and seeded random edits; every mutant is presented to the real entry points at all three layers. A mutant must be rejected with a non-plaintext error, without a keystream event and without any validator call; only the two tolerated classes may be accepted, and only with the original content. quick ~7.5e5 evaluations.",
+   note="authenticity of base tokens comes from the library itself; unforgeability of the primitives is assumed; hook placement inside CipherText::from", ref="DESIGN.md section 4 C03"),
+ "C04": dict(technique="runtime monitoring: wrong-key monitor (oracle by construction: any acceptance under a different key is a violation) over all single-bit key neighbours and key pools at all three layers",
+   text="Authentic tokens are presented under every single-bit neighbour of their key (symmetric, Ed25519, P-384 point, RSA DER), all-zero/all-one/random/rotated/half-zeroed keys and every other pool key. quick ~6.6e4 evaluations.",
+   note="forgery resistance of the primitives assumed; different encodings of the same key are out of scope", ref="DESIGN.md section 4 C04"),
+ "C05": dict(technique="runtime monitoring: footer monitor (string-equality oracle in the harness, own base64url encoder) over the footer catalogue squared at all three layers, plus footer-segment edits",
+   text="For every protocol and layer a token is built with each catalogue footer and parsed with every catalogue footer; accept iff equal (none == empty). The footer segment of each produced token is compared with the harness's own encoder; removed/emptied/replaced/extended/truncated/added footer segments must fail. quick ~5e4 evaluations.",
+   note="empty 4th segment for an explicitly empty footer is decided by C08", ref="DESIGN.md section 4 C05"),
+ "C06": dict(technique="runtime monitoring: implicit-assertion monitor (string-equality oracle; length, substring and ciphertext-prefix checks; re-split attack) for v3/v4 at all three layers",
+   text="Accept iff the supplied assertion equals the one used at build time (catalogue squared); token length independent of the assertion; assertion bytes (raw and base64url at 3 alignments) absent from token and decoded payload; nonce||ciphertext identical across assertions with a fixed nonce; (footer, assertion) re-splits rejected. quick ~2e4 evaluations.",
+   note="random assertions >= 12 base64 characters (chance occurrence < 2^-60)", ref="DESIGN.md section 4 C06"),
+ "C07": dict(technique="runtime monitoring: cross-protocol monitor over all 56 ordered protocol pairs (exhaustive), verbatim and relabelled tokens, shared key material, three layers",
+   text="Tokens of protocol X are presented verbatim and with Y's header to Y's core/generic/batteries entry points using the same key bytes wherever types allow; any acceptance is a violation. quick ~5e3 evaluations over all 56 pairs.",
+   note="forgery resistance of the primitives assumed", ref="DESIGN.md section 4 C07"),
  "C09": dict(technique="runtime monitoring: panic/crash monitor (catch_unwind + panic-location hook + parent-side death detection; thorough adds a plain-release pass and valgrind memcheck) over hostile token strings at all 24 entry points and Key::<N>::try_from",
    text="Any Ok/Err is accepted, a panic or process death is the violation. Exhaustive over decoded payload lengths 0..=400 per protocol x fill x footer, every prefix of authentic tokens, hex strings of every length 0..=200; seeded random and large inputs on top.",
    note="inputs above 3 MiB not driven; valgrind decides only on process death or invalid write/free below a library frame", ref="DESIGN.md section 4 C09"),
